@@ -7,5 +7,5 @@ CONSTANTS
 SPECIFICATION Spec
 CONSTRAINT Bound
 INVARIANTS TypeOK RootFinishesOnce DocumentedResult ChildStartOrder NoRestartWhileUnderway NothingLeftRunning
-  NoStaleNotification FinalOncePerRun ResetIsFresh PauseHoldsResults AtMostOnePending
+  NoStaleNotification FinalOncePerRun ResetIsFresh PauseHoldsResults
 CHECK_DEADLOCK FALSE
